@@ -45,3 +45,27 @@ Theorem c08_refuted_value_is_root_record :
   run (init true) cex_history = [ROk; ROk; ROk; ROk; ROk; RNames [[97%N]]].
 Proof. exact DStoreRefine.h4_needed. Qed.
 Print Assumptions c08_refuted_value_is_root_record.
+
+(* ---------------------------------------------------------------------------------------------- *)
+(* REGENERATED FROM THE SOURCE ON EVERY RUN (tools/gen -> Generated.g_code; Decisions.v): the decisions the model
+   takes at these points are the evaluations of the conditions the Go source has there, for all values of their
+   variables. *)
+From GK Require Import GExpr Generated Decisions.
+From Coq Require Import String.
+
+(* the recorded offset of a root record and the length it implies (Codec.root_at) *)
+Theorem c08_root_offset_check_is_source :
+  exists c, decisions "Store.checkAndReadRoots" "offset" = [c] /\
+    forall offset size len len32 : Z,
+      let rho := upd (upd (upd (upd (upd env0 "offset" offset) "atomic.LoadInt64(&s.size)" size) "rootsLen" roots_len)
+                          "length" len) "uint32((atomic.LoadInt64(&s.size)-offset))" len32 in
+      gtrue rho c = Some (Z.geb offset 0 && Z.ltb offset (size - roots_len) && Z.eqb len len32).
+Proof. exact Decisions.root_offset_decision. Qed.
+Print Assumptions c08_root_offset_check_is_source.
+
+(* FlushRevert steps below the current root only when the store is longer than an empty root record (Disk.revert_bytes) *)
+Theorem c08_revert_step_is_source :
+  exists c, decisions "Store.FlushRevert" "rootsLen" = [c] /\
+    forall size : Z, gtrue (upd (upd env0 "atomic.LoadInt64(&s.size)" size) "rootsLen" roots_len) c = Some (Z.ltb roots_len size).
+Proof. exact Decisions.revert_step_decision. Qed.
+Print Assumptions c08_revert_step_is_source.
